@@ -29,7 +29,7 @@ pub fn mk_gen(rng: &mut Rng, frag: Frag, thorough: bool) -> GenCfg {
         Frag::Seq => GenCfg::fseq(n_peers, budget),
         Frag::Stream => GenCfg::fstream(n_peers, budget),
         Frag::StreamNoFail => GenCfg::fstream_nofail(n_peers, budget),
-        Frag::SeqNoFail => GenCfg { errors: false, never: false, ..GenCfg::fseq(n_peers, budget) },
+        Frag::SeqNoFail => GenCfg { errors: false, never: false, par_joins: false, ..GenCfg::fseq(n_peers, budget) },
     };
     g.max_depth = if thorough { rng.range(4, 9) } else { rng.range(3, 7) };
     g
